@@ -475,13 +475,44 @@ Definition no_unknown (p : program) : bool :=
 Definition no_foreign (p : program) : bool :=
   match p_foreign p with [] => true | _ => false end.
 
+(* ---- release on every path, panics included ----
+   The trace semantics does not model panics.  A lock released by `defer Unlock` is released when
+   the function panics (a user hook, req.Bytes(), a parse function may panic and the caller may
+   recover); a lock released by an explicit Unlock is not.  A function with an explicit
+   (non-deferred) Unlock is therefore only accepted if, at the top level of its body, everything
+   between a Lock and the next Unlock is a plain assignment to a field (Use _ W: cannot call
+   anything) or a use of an atomic field (Load / Store: cannot panic), and no explicit Unlock occurs
+   deeper.  Server.serve (Lock; listener = ...; isShutdown.Load(); Unlock) is of this kind. *)
+Definition is_explicit_unlock (s : stmt) : bool :=
+  match s with Unlock _ | RUnlock _ => true | _ => false end.
+Fixpoint plain_sections (inside : bool) (l : list stmt) : bool :=
+  match l with
+  | [] => true
+  | s :: r =>
+      if inside then
+        match s with
+        | Use _ W => plain_sections true r
+        | Use f R => mem f atomic_fields && plain_sections true r
+        | Unlock _ | RUnlock _ => plain_sections false r
+        | _ => false
+        end
+      else
+        match s with
+        | Lock _ | RLock _ => plain_sections true r
+        | _ => negb (any_stmt is_explicit_unlock s) && plain_sections false r
+        end
+  end.
+Definition panic_safe (p : program) : bool :=
+  forallb (fun f => if any_list is_explicit_unlock (fn_body f) then plain_sections false (fn_body f) else true)
+          (p_funcs p).
+
 (* the lock discipline of the file: read locks only in functions that need no exclusion; nothing
    unrecognised, only known mutexes, no reference to the
    structs' fields / unexported methods from other files, and for every mutex: every function has a
    definite entry mode, everything callable through a function value is neutral, and every thread
    body (exported function, go statement) is checked from "lock free" *)
 Definition locks_ok (p : program) : bool :=
-  no_unknown p && no_foreign p && shared_ok p && forallb (mutex_ok p) all_mutexes.
+  no_unknown p && no_foreign p && shared_ok p && panic_safe p && forallb (mutex_ok p) all_mutexes.
 
 (* ---- configuration fields: written only before the object is shared ---- *)
 Definition is_go_or_loop (s : stmt) : bool := match s with Go _ | Loop _ => true | _ => false end.
